@@ -27,7 +27,8 @@
                             that list and that draw selects a target; no other draw or sampling exists;
   * `C06_monitor_accepts_model` : hence `C06.fwMonitor` returns `none` on the model's trace, under
                             the one hypothesis that the oracle's uniform draws are among the `2^23`
-                            values `k/2^23` (what `C06_draw01` shows for rand's conversion; the model
+                            values `k/2^23` (`C06_drawInRange_iff`: the monitor's range predicate is
+                            exactly `∃ k < N, draw k`; what `C06_draw01` shows for rand's conversion; the model
                             quantifies over arbitrary oracles, and `C06_monitor_rejects_bad_draw` is a
                             kernel-checked trace with the draw 1.0 that the monitor rejects).
 -/
@@ -232,11 +233,49 @@ theorem C06_log_fresh_draws (ms : List Machine) (fp fb : F64) (t0 : Int) (rng : 
     ∀ r ∈ (LL.modelTrace ρ ms fp fb t0 rng h).calls, checkDraws ms r.log = none :=
   MA.c06_checkDraws_trace ρ ms fp fb t0 rng h
 
+/-- the monitor's range predicate says exactly that the draw is one of the `N = 2^23` outcomes
+    `draw k = k/N`, `k < N`, over which the counting theorems above range -/
+theorem C06_drawInRange_iff (bits : F32) :
+    drawInRange bits = true ↔ ∃ k, k < N ∧ val32 bits = draw k := by
+  unfold drawInRange draw
+  have hN : (0 : ℚ) < (N : ℚ) := N_pos
+  constructor
+  · intro h
+    cases hv : val32 bits with
+    | nan => rw [hv] at h; simp at h
+    | inf s => rw [hv] at h; simp at h
+    | fin q =>
+      rw [hv] at h
+      simp only [Bool.and_eq_true, decide_eq_true_eq] at h
+      obtain ⟨⟨h0, h1⟩, hd⟩ := h
+      have hz : ((q * (N : ℚ)).num : ℚ) = q * (N : ℚ) := by
+        have := Rat.num_div_den (q * (N : ℚ))
+        rw [hd] at this
+        simpa using this
+      have hnn : 0 ≤ (q * (N : ℚ)).num := Rat.num_nonneg.mpr (mul_nonneg h0 hN.le)
+      have hk : (((q * (N : ℚ)).num.toNat : ℕ) : ℚ) = q * (N : ℚ) := by
+        rw [← hz]
+        have : (((q * (N : ℚ)).num.toNat : ℕ) : ℤ) = (q * (N : ℚ)).num := Int.toNat_of_nonneg hnn
+        exact_mod_cast congrArg (fun z : ℤ => (z : ℚ)) this
+      refine ⟨(q * (N : ℚ)).num.toNat, ?_, ?_⟩
+      · have : (((q * (N : ℚ)).num.toNat : ℕ) : ℚ) < (N : ℚ) := by
+          rw [hk]; calc q * (N : ℚ) < 1 * (N : ℚ) := mul_lt_mul_of_pos_right h1 hN
+            _ = (N : ℚ) := one_mul _
+        exact_mod_cast this
+      · rw [hk, mul_div_assoc, div_self hN.ne', mul_one]
+  · rintro ⟨k, hk, hv⟩
+    rw [hv]
+    have hkq : ((k : ℚ)) < (N : ℚ) := by exact_mod_cast hk
+    simp only [Bool.and_eq_true, decide_eq_true_eq]
+    refine ⟨⟨div_nonneg (Nat.cast_nonneg k) hN.le, (div_lt_one hN).mpr hkq⟩, ?_⟩
+    rw [div_mul_cancel₀ _ hN.ne']
+    simp
+
 /-- **The monitor accepts the model.** Hypothesis `hu`: every uniform draw of the oracle is one of
-    the `2^23` values `k/2^23`, `0 ≤ k < 2^23` — the monitor's range rule checks exactly that of
-    every logged draw, the model's oracle is arbitrary, so the hypothesis is needed
-    (`C06_monitor_rejects_bad_draw`); for the implementation it is `C06_draw01`. Nothing else is
-    assumed: any machines, configuration, history. -/
+    the `2^23` values `k/2^23`, `0 ≤ k < 2^23` (`C06_drawInRange_iff`) — the monitor's range rule
+    checks exactly that of every logged draw, the model's oracle is arbitrary, so the hypothesis is
+    needed (`C06_monitor_rejects_bad_draw`); for the implementation it is `C06_draw01`. Nothing else
+    is assumed: any machines, configuration, history. -/
 theorem C06_monitor_accepts_model (hu : ∀ g, drawInRange (ρ.u g).1 = true) (ms : List Machine) (fp fb : F64)
     (t0 : Int) (rng : σ) (h : List Call) : fwMonitor (LL.modelTrace ρ ms fp fb t0 rng h) = none :=
   MA.c06_monitor_model ρ hu ms fp fb t0 rng h
